@@ -20,7 +20,7 @@ type C11Query struct {
 	Kind     string     `json:"kind"`      // range | priority | nearest
 	Box      [4]float64 `json:"box"`       // minx miny maxx maxy
 	StopAt   int        `json:"stop_at"`   // callback invocation index (0-based) at which a non-nil value is returned; -1 never
-	StopKind int        `json:"stop_kind"` // 1 Stop, 2 wrapped Stop, 3 custom error, 4 doubly wrapped Stop
+	StopKind int        `json:"stop_kind"` // 1 Stop, 2 wrapped Stop, 3 custom error, 4 doubly wrapped Stop, 5 errors.Join(custom, Stop), 6 two %w verbs (custom, Stop), 7 Join nested in a %w wrap
 }
 
 type C11Case struct {
@@ -63,6 +63,25 @@ func boxDist2(a, b [4]float64) *big.Rat {
 	dy.Mul(dy, dy)
 	return dx.Add(dx, dy)
 }
+
+// c11Nearer reports whether a is nearer than b by more than float64 rounding of the squared distance
+// (relative 1e-13): the tree orders by distances computed in float64, so two records whose exact
+// distances differ by less than that may legitimately come out in either order.  On the integer and
+// k/8 coordinate classes every squared distance is exact in float64 and distinct values differ by far
+// more, so nothing is forgiven there.
+func c11Nearer(a, b *big.Rat) bool {
+	if a.Cmp(b) >= 0 {
+		return false
+	}
+	lhs := new(big.Rat).Mul(a, c11TolDen)
+	rhs := new(big.Rat).Mul(b, c11TolNum)
+	return lhs.Cmp(rhs) < 0
+}
+
+var (
+	c11TolDen = new(big.Rat).SetInt64(10000000000000)
+	c11TolNum = new(big.Rat).SetInt64(10000000000000 - 1)
+)
 
 func c11Check(c C11Case, cx *h.Ctx) *h.Failure {
 	items := c11Items(c)
@@ -151,6 +170,12 @@ func c11Query(c C11Case, tree *rtree.RTree, q C11Query, qi int, cx *h.Ctx) *h.Fa
 				stopErr = fmt.Errorf("wrapped: %w", rtree.Stop)
 			case 4:
 				stopErr = fmt.Errorf("outer: %w", fmt.Errorf("inner: %w", rtree.Stop))
+			case 5:
+				stopErr = errors.Join(errC11Custom, rtree.Stop)
+			case 6:
+				stopErr = fmt.Errorf("first %w then %w", errC11Custom, rtree.Stop)
+			case 7:
+				stopErr = fmt.Errorf("outer: %w", errors.Join(errors.New("sibling"), fmt.Errorf("inner: %w", rtree.Stop)))
 			default:
 				stopErr = errC11Custom
 			}
@@ -211,7 +236,7 @@ func c11Query(c C11Case, tree *rtree.RTree, q C11Query, qi int, cx *h.Ctx) *h.Fa
 			}
 			seen[id] = true
 			d := boxDist2(c.Boxes[id-c.IDBase], q.Box)
-			if prev != nil && d.Cmp(prev) < 0 {
+			if prev != nil && c11Nearer(d, prev) {
 				return h.Failf("rtree/priority-order", "query %d box %v: visit %d (record %d, d2=%s) is nearer than the previous visit (d2=%s)", qi, q.Box, vi, id, d.FloatString(6), prev.FloatString(6))
 			}
 			prev = d
@@ -229,7 +254,7 @@ func c11Query(c C11Case, tree *rtree.RTree, q C11Query, qi int, cx *h.Ctx) *h.Fa
 			}
 			// every unvisited record must be at least as far as the last visited one
 			for i, b := range c.Boxes {
-				if !seen[c.IDBase+i] && prev != nil && boxDist2(b, q.Box).Cmp(prev) < 0 {
+				if !seen[c.IDBase+i] && prev != nil && c11Nearer(boxDist2(b, q.Box), prev) {
 					return h.Failf("rtree/priority-skipped-nearer", "query %d: record %d not yet visited is nearer than visited ones", qi, c.IDBase+i)
 				}
 			}
@@ -248,7 +273,7 @@ func c11Query(c C11Case, tree *rtree.RTree, q C11Query, qi int, cx *h.Ctx) *h.Fa
 			}
 			d := boxDist2(c.Boxes[id-c.IDBase], q.Box)
 			for i, b := range c.Boxes {
-				if boxDist2(b, q.Box).Cmp(d) < 0 {
+				if c11Nearer(boxDist2(b, q.Box), d) {
 					return h.Failf("rtree/nearest-not-min", "query %d box %v: Nearest returned record %d (d2=%s) but record %d is nearer", qi, q.Box, id, d.FloatString(6), c.IDBase+i)
 				}
 			}
@@ -262,7 +287,7 @@ func c11Query(c C11Case, tree *rtree.RTree, q C11Query, qi int, cx *h.Ctx) *h.Fa
 
 func c11StopErr(err error, q C11Query, qi int, name string) *h.Failure {
 	switch q.StopKind {
-	case 1, 2, 4:
+	case 1, 2, 4, 5, 6, 7:
 		if err != nil {
 			return h.Failf("rtree/stop-not-nil", "query %d: %s returned %v after the callback returned (wrapped) Stop", qi, name, err)
 		}
@@ -377,7 +402,7 @@ func c11GenQueries(t *rapid.T, boxes [][4]float64, nq int) []C11Query {
 		q.StopAt = -1
 		if rapid.IntRange(0, 2).Draw(t, "stops") > 0 {
 			q.StopAt = rapid.IntRange(0, 12).Draw(t, "stopat")
-			q.StopKind = rapid.IntRange(1, 4).Draw(t, "stopkind")
+			q.StopKind = rapid.IntRange(1, 7).Draw(t, "stopkind")
 		}
 		qs = append(qs, q)
 	}
@@ -401,10 +426,29 @@ func c11Gen(t *rapid.T, cx *h.Ctx) C11Case {
 	c := C11Case{IDBase: rapid.IntRange(-3, 3).Draw(t, "idbase")}
 	c.Boxes = c11GenBoxes(t, n)
 	c.Queries = c11GenQueries(t, c.Boxes, rapid.IntRange(1, 8).Draw(t, "nq"))
+	// Non-dyadic ordinates: one monotone map v -> v*s+o applied to every ordinate of every box and query.
+	// Equal inputs stay equal (touching stays touching, exactly), but sums, differences and midpoints of
+	// the ordinates are no longer exact in float64.
+	if rapid.IntRange(0, 2).Draw(t, "scaled") == 0 {
+		sc := rapid.SampledFrom([]float64{0.1, 1.0 / 3, 0.7, 1e-3, 1e-7, 12345.678}).Draw(t, "scale")
+		off := rapid.SampledFrom([]float64{0, 0.1, -0.3, 1e6 + 0.1}).Draw(t, "offset")
+		f := func(b *[4]float64) {
+			for i := range b {
+				b[i] = b[i]*sc + off
+			}
+		}
+		for i := range c.Boxes {
+			f(&c.Boxes[i])
+		}
+		for i := range c.Queries {
+			f(&c.Queries[i].Box)
+		}
+		cx.Class("coords=non-dyadic")
+	}
 	return c
 }
 
-// c11Enumerate: every size 0..40 x 7 deterministic layouts x a fixed query set
+// c11Enumerate: every size 0..40 x 8 deterministic layouts x a fixed query set
 // x every stop position / stop kind (sizes around every fan-out boundary).
 func c11Enumerate(cx *h.Ctx, yield func(C11Case)) []string {
 	layouts := []func(i, n int) [4]float64{
@@ -419,6 +463,7 @@ func c11Enumerate(cx *h.Ctx, yield func(C11Case)) []string {
 		},
 		func(i, n int) [4]float64 { y := float64(i); return [4]float64{3, y, 3, y + 1} },                    // vertical line boxes
 		func(i, n int) [4]float64 { x := float64(i*i%17) / 2; return [4]float64{x, -x, x + 0.5, -x + 0.5} }, // diagonal fractional
+		func(i, n int) [4]float64 { return [4]float64{float64(i) / 10, 0.1, float64(i+1) / 10, 0.3} },       // touching row in tenths (non-dyadic)
 	}
 	for n := 0; n <= 40; n++ {
 		for li, lay := range layouts {
@@ -440,20 +485,20 @@ func c11Enumerate(cx *h.Ctx, yield func(C11Case)) []string {
 				// every stop position for the enclosing and the item query
 				for k := 0; k <= n && k <= 41; k++ {
 					c := C11Case{Boxes: boxes, IDBase: li - 3}
-					sk := 1 + (k+li)%4
-					c.Queries = []C11Query{{Kind: "range", Box: qb, StopAt: k, StopKind: sk}, {Kind: "priority", Box: qb, StopAt: k, StopKind: 1 + (k+li+1)%4}}
+					sk := 1 + (k+li)%7
+					c.Queries = []C11Query{{Kind: "range", Box: qb, StopAt: k, StopKind: sk}, {Kind: "priority", Box: qb, StopAt: k, StopKind: 1 + (k+li+1)%7}}
 					yield(c)
 				}
 			}
 		}
 	}
-	return []string{"sizes 0..40 x 7 deterministic layouts x 5-7 query boxes x {range,priority,nearest} x every stop position 0..n with rotating stop kinds"}
+	return []string{"sizes 0..40 x 8 deterministic layouts x 5-7 query boxes x {range,priority,nearest} x every stop position 0..n with rotating stop kinds"}
 }
 
 func TestC11(t *testing.T) {
 	h.Run(t, h.Prop[C11Case]{
 		ID:          "C11",
-		Rule:        "cases = a multiset of boxes bulk-loaded into an R-tree plus 1..8 queries (range/priority/nearest, with a scripted callback that returns nil/Stop/wrapped Stop/custom error at visit k), oracle = linear scan with exact rational box distances; generated by (a) exhaustive enumeration of sizes 0..40 x 7 layouts x query boxes x every stop position and (b) rapid draws of sizes 0..300 (thorough 0..5000) over 7 layouts x 3 coordinate classes; non-trivial = >= 9 items (tree depth >= 2) and, for range queries, >= 2 matching records or a stop with matches remaining; distinct = distinct case hashes",
+		Rule:        "cases = a multiset of boxes bulk-loaded into an R-tree plus 1..8 queries (range/priority/nearest, with a scripted callback that returns nil/Stop/Stop wrapped by %w, by two %w verbs or by errors.Join/custom error at visit k), oracle = linear scan with exact rational box distances (order compared up to 1e-13 relative, the rounding of a float64 squared distance); generated by (a) exhaustive enumeration of sizes 0..40 x 8 layouts x query boxes x every stop position and (b) rapid draws of sizes 0..300 (thorough 0..5000) over 7 layouts x 3 coordinate classes, a third of them mapped to non-dyadic ordinates by one monotone v*s+o; non-trivial = >= 9 items (tree depth >= 2) and, for range queries, >= 2 matching records or a stop with matches remaining; distinct = distinct case hashes",
 		Assumptions: []string{"linear-scan oracle and math/big rational distances are correct", "rtree.VerifCheck hook (build tag verif) reports structural invariants faithfully"},
 		Gen:         c11Gen,
 		Check:       c11Check,
